@@ -72,11 +72,134 @@ fn bellerophon_entry(k: i64) -> (u64, i32) {
     (mant.to_u64().expect("64-bit significand"), e as i32)
 }
 
+/// Round-to-nearest-even of an integer below 2^128 into `fmt` by plain integer arithmetic (no overflow to
+/// infinity in the range used here).  Natively every result is cross-checked against the decimal oracle; under
+/// the interpreter (32-bit-limb stage) only this cheap form runs.
+fn round_u128(fmt: Fmt, v: u128) -> u64 {
+    assert!(v != 0);
+    let p = fmt.mbits() + 1;
+    let bits = 128 - v.leading_zeros();
+    let (m, e2) = if bits <= p {
+        (v as u64, 0u32)
+    } else {
+        let sh = bits - p;
+        let kept = (v >> sh) as u64;
+        let rem = v & ((1u128 << sh) - 1);
+        let half = 1u128 << (sh - 1);
+        let up = rem > half || (rem == half && kept & 1 == 1);
+        (kept + up as u64, sh)
+    };
+    // value = m * 2^e2, m < 2^p or m == 2^p after a carry
+    let (m, e2) = if m == 1u64 << p { (m >> 1, e2 + 1) } else { (m, e2) };
+    let top = 63 - m.leading_zeros(); // position of the leading bit of m
+    let frac = (m << (fmt.mbits() - top)) & ((1u64 << fmt.mbits()) - 1);
+    let exp = (e2 + top) as u64 + fmt.bias() as u64;
+    let out = (exp << fmt.mbits()) | frac;
+    if !cfg!(miri) {
+        let d = Dec::from_nat(&Nat::from_u128(v), 0);
+        assert!(oracle::expected_dec(fmt, &d) == out, "round_u128 disagrees with the oracle for {v}");
+    }
+    out
+}
+
 fn exact_pow10_bits(fmt: Fmt, e: u32) -> u64 {
-    let d = Dec::from_nat(&Nat::pow_small(10, e), 0);
-    let bits = oracle::expected_dec(fmt, &d);
-    assert!(oracle::exact(fmt, bits) == d, "10^{e} must be exactly representable in {}", fmt.name());
+    let bits = round_u128(fmt, 10u128.pow(e));
+    if !cfg!(miri) {
+        let d = Dec::from_nat(&Nat::pow_small(10, e), 0);
+        assert!(oracle::exact(fmt, bits) == d, "10^{e} must be exactly representable in {}", fmt.name());
+    }
     bits
+}
+
+/// On-demand powers (not table constants): float powers of ten via tables / std pow / the bundled libm, and the
+/// integer powers of ten consumed by parse_mantissa's chunking (end-of-input and digit-limit exits) and by the
+/// disguised fast path.  Cheap enough for the interpreted 32-bit-limb stage as well.
+pub fn check_on_demand_powers(cfg: &'static Cfg, stats: &mut Stats) -> Result<u64, Failure> {
+    let mut n = 0u64;
+    // on-demand float powers (tables, std pow, bundled libm), every configuration
+    for e in 0..=10usize {
+        let want = exact_pow10_bits(Fmt::F32, e as u32);
+        let got = (cfg.pow_fast32)(e);
+        if got != want {
+            return Err(fail(cfg, "<f32 as Float>::pow_fast_path", e as i64, Fmt::F32.hex(want), Fmt::F32.hex(got)));
+        }
+        n += 1;
+    }
+    for e in 0..=22usize {
+        let want = exact_pow10_bits(Fmt::F64, e as u32);
+        let got = (cfg.pow_fast64)(e);
+        if got != want {
+            return Err(fail(cfg, "<f64 as Float>::pow_fast_path", e as i64, Fmt::F64.hex(want), Fmt::F64.hex(got)));
+        }
+        n += 1;
+    }
+    stats.add("pow_fast_path(f32 0..=10, f64 0..=22)", 34);
+    if let Some(_) = (cfg.libm_pow)(0) {
+        for e in 0..=22u32 {
+            let (g32, g64) = (cfg.libm_pow)(e).unwrap();
+            if e <= 10 && g32 as u64 != exact_pow10_bits(Fmt::F32, e) {
+                return Err(fail(cfg, "libm::powf(10,e)", e as i64, Fmt::F32.hex(exact_pow10_bits(Fmt::F32, e)), Fmt::F32.hex(g32 as u64)));
+            }
+            if g64 != exact_pow10_bits(Fmt::F64, e) {
+                return Err(fail(cfg, "libm::powd(10,e)", e as i64, Fmt::F64.hex(exact_pow10_bits(Fmt::F64, e)), Fmt::F64.hex(g64)));
+            }
+            n += if e <= 10 { 2 } else { 1 };
+        }
+        stats.add("libm::powf/powd(10, e)", 34);
+    }
+    for k in 1..=19usize {
+        // first chunk 1 0^18, then k sevens: value = 10^18 * 10^k + 77..7
+        let mut digits = vec![b'1'];
+        digits.extend(std::iter::repeat(b'0').take(18));
+        digits.extend(std::iter::repeat(b'7').take(k));
+        let (limbs, count) = (cfg.slow_parse_mantissa)(&digits, b"", 800);
+        let want = Nat::from_digits(&digits.iter().map(|c| c - b'0').collect::<Vec<_>>());
+        if Nat::from_limbs(&limbs) != want || count != digits.len() {
+            return Err(fail(cfg, "int_pow_fast_path(k, Ten) via parse_mantissa", k as i64, want.to_string(), Nat::from_limbs(&limbs).to_string()));
+        }
+        n += 1;
+    }
+    stats.add("10^1..10^19 via parse_mantissa chunks", 19);
+    for k in 1..=19usize {
+        // the digit limit falls k digits into the second chunk and a non-zero digit follows: the last
+        // temporary is flushed with 10^k from the "limit reached" exit (k = 19: chunk and limit coincide,
+        // the only consumer of 10^19), then the truncated tail rounds up by one more digit
+        let mut digits = vec![b'3'];
+        digits.extend(std::iter::repeat(b'0').take(18));
+        digits.extend(std::iter::repeat(b'6').take(k));
+        let max_digits = digits.len();
+        let mut input = digits.clone();
+        input.extend(b"0005");
+        for (int, frac) in [(&input[..], &b""[..]), (&input[..7], &input[7..])] {
+            let (limbs, count) = (cfg.slow_parse_mantissa)(int, frac, max_digits);
+            let mut want_digits: Vec<u8> = digits.iter().map(|c| c - b'0').collect();
+            want_digits.push(1);
+            let want = Nat::from_digits(&want_digits);
+            if Nat::from_limbs(&limbs) != want || count != max_digits + 1 {
+                return Err(fail(cfg, "int_pow_fast_path(k, Ten) via parse_mantissa at the digit limit", k as i64, want.to_string(), Nat::from_limbs(&limbs).to_string()));
+            }
+            n += 1;
+        }
+    }
+    stats.add("10^1..10^19 via parse_mantissa at the digit limit (integer and split)", 38);
+    for s in 1..=15i32 {
+        let want = round_u128(Fmt::F64, 3 * 10u128.pow((22 + s) as u32));
+        let got = (cfg.fast64)(3, 22 + s, false);
+        if got != Some(want) {
+            return Err(fail(cfg, "disguised fast path f64 (int 10^s)", s as i64, Fmt::F64.hex(want), format!("{:?}", got.map(|b| Fmt::F64.hex(b)))));
+        }
+        n += 1;
+    }
+    for s in 1..=7i32 {
+        let want = round_u128(Fmt::F32, 10u128.pow((10 + s) as u32));
+        let got = (cfg.fast32)(1, 10 + s, false);
+        if got != Some(want) {
+            return Err(fail(cfg, "disguised fast path f32 (int 10^s)", s as i64, Fmt::F32.hex(want), format!("{:?}", got.map(|b| Fmt::F32.hex(b)))));
+        }
+        n += 1;
+    }
+    stats.add("10^1..10^15 / 10^1..10^7 via the disguised fast path", 22);
+    Ok(n)
 }
 
 pub fn check_cfg(cfg: &'static Cfg, stats: &mut Stats) -> Result<(), Failure> {
@@ -172,37 +295,7 @@ pub fn check_cfg(cfg: &'static Cfg, stats: &mut Stats) -> Result<(), Failure> {
         }
         stats.add(&tag("BASE10_POWERS"), 86);
     }
-    // on-demand float powers (tables, std pow, bundled libm), every configuration
-    for e in 0..=10usize {
-        let want = exact_pow10_bits(Fmt::F32, e as u32);
-        let got = (cfg.pow_fast32)(e);
-        if got != want {
-            return Err(fail(cfg, "<f32 as Float>::pow_fast_path", e as i64, Fmt::F32.hex(want), Fmt::F32.hex(got)));
-        }
-        n += 1;
-    }
-    for e in 0..=22usize {
-        let want = exact_pow10_bits(Fmt::F64, e as u32);
-        let got = (cfg.pow_fast64)(e);
-        if got != want {
-            return Err(fail(cfg, "<f64 as Float>::pow_fast_path", e as i64, Fmt::F64.hex(want), Fmt::F64.hex(got)));
-        }
-        n += 1;
-    }
-    stats.add("pow_fast_path(f32 0..=10, f64 0..=22)", 34);
-    if let Some(_) = (cfg.libm_pow)(0) {
-        for e in 0..=22u32 {
-            let (g32, g64) = (cfg.libm_pow)(e).unwrap();
-            if e <= 10 && g32 as u64 != exact_pow10_bits(Fmt::F32, e) {
-                return Err(fail(cfg, "libm::powf(10,e)", e as i64, Fmt::F32.hex(exact_pow10_bits(Fmt::F32, e)), Fmt::F32.hex(g32 as u64)));
-            }
-            if g64 != exact_pow10_bits(Fmt::F64, e) {
-                return Err(fail(cfg, "libm::powd(10,e)", e as i64, Fmt::F64.hex(exact_pow10_bits(Fmt::F64, e)), Fmt::F64.hex(g64)));
-            }
-            n += if e <= 10 { 2 } else { 1 };
-        }
-        stats.add("libm::powf/powd(10, e)", 34);
-    }
+    n += check_on_demand_powers(cfg, stats)?;
     // integer powers through the public routes that consume them
     for e in 0..=420u32 {
         let want = pow5().get(e as usize);
@@ -215,58 +308,6 @@ pub fn check_cfg(cfg: &'static Cfg, stats: &mut Stats) -> Result<(), Failure> {
         n += 1;
     }
     stats.add("bigint::pow 5^0..5^420 (small powers, 5^27 steps, 5^135 steps)", 421);
-    for k in 1..=19usize {
-        // first chunk 1 0^18, then k sevens: value = 10^18 * 10^k + 77..7
-        let mut digits = vec![b'1'];
-        digits.extend(std::iter::repeat(b'0').take(18));
-        digits.extend(std::iter::repeat(b'7').take(k));
-        let (limbs, count) = (cfg.slow_parse_mantissa)(&digits, b"", 800);
-        let want = Nat::from_digits(&digits.iter().map(|c| c - b'0').collect::<Vec<_>>());
-        if Nat::from_limbs(&limbs) != want || count != digits.len() {
-            return Err(fail(cfg, "int_pow_fast_path(k, Ten) via parse_mantissa", k as i64, want.to_string(), Nat::from_limbs(&limbs).to_string()));
-        }
-        n += 1;
-    }
-    stats.add("10^1..10^19 via parse_mantissa chunks", 19);
-    for k in 1..=19usize {
-        // the digit limit falls k digits into the second chunk and a non-zero digit follows: the last
-        // temporary is flushed with 10^k from the "limit reached" exit (k = 19: chunk and limit coincide,
-        // the only consumer of 10^19), then the truncated tail rounds up by one more digit
-        let mut digits = vec![b'3'];
-        digits.extend(std::iter::repeat(b'0').take(18));
-        digits.extend(std::iter::repeat(b'6').take(k));
-        let max_digits = digits.len();
-        let mut input = digits.clone();
-        input.extend(b"0005");
-        for (int, frac) in [(&input[..], &b""[..]), (&input[..7], &input[7..])] {
-            let (limbs, count) = (cfg.slow_parse_mantissa)(int, frac, max_digits);
-            let mut want_digits: Vec<u8> = digits.iter().map(|c| c - b'0').collect();
-            want_digits.push(1);
-            let want = Nat::from_digits(&want_digits);
-            if Nat::from_limbs(&limbs) != want || count != max_digits + 1 {
-                return Err(fail(cfg, "int_pow_fast_path(k, Ten) via parse_mantissa at the digit limit", k as i64, want.to_string(), Nat::from_limbs(&limbs).to_string()));
-            }
-            n += 1;
-        }
-    }
-    stats.add("10^1..10^19 via parse_mantissa at the digit limit (integer and split)", 38);
-    for s in 1..=15i32 {
-        let want = oracle::expected(Fmt::F64, b"3", b"", (22 + s) as i64);
-        let got = (cfg.fast64)(3, 22 + s, false);
-        if got != Some(want) {
-            return Err(fail(cfg, "disguised fast path f64 (int 10^s)", s as i64, Fmt::F64.hex(want), format!("{:?}", got.map(|b| Fmt::F64.hex(b)))));
-        }
-        n += 1;
-    }
-    for s in 1..=7i32 {
-        let want = oracle::expected(Fmt::F32, b"1", b"", (10 + s) as i64);
-        let got = (cfg.fast32)(1, 10 + s, false);
-        if got != Some(want) {
-            return Err(fail(cfg, "disguised fast path f32 (int 10^s)", s as i64, Fmt::F32.hex(want), format!("{:?}", got.map(|b| Fmt::F32.hex(b)))));
-        }
-        n += 1;
-    }
-    stats.add("10^1..10^15 / 10^1..10^7 via the disguised fast path", 22);
     stats.evaluations += n;
     for i in 0..n {
         stats.nontrivial.push(crate::gen::mix(i ^ (cfg.name.len() as u64) << 32 ^ (cfg.compact as u64) << 40 ^ (cfg.alloc as u64) << 41 ^ (cfg.std as u64) << 42));
@@ -303,6 +344,7 @@ pub fn check_limb_dependent(cfg: &'static Cfg, stats: &mut Stats) -> Result<(), 
         }
         n += 1;
     }
+    n += check_on_demand_powers(cfg, stats)?;
     stats.evaluations += n;
     Ok(())
 }
